@@ -8,6 +8,10 @@
 //! plus the same recomputation in plain Rust and the range check (direct observations).
 //! Group `marker`: every position marker of the parse tree of the same files:
 //! `source_position()` / `templated_position()` vs the model on the real (source, templated) ranges.
+//! Every group has a *non-ASCII* class (2-, 3- and 4-byte UTF-8 characters in comments, literals,
+//! quoted and bare identifiers, replacement values, parameter names, placed before newlines and
+//! before the violations): every slice in sqruff is a byte range, so such texts separate byte
+//! offsets from character indices in the newline tables, the lexer, the templater and the markers.
 use serde_json::{Value as J, json};
 use sqruff_lib::core::config::{FluffConfig, Value};
 use sqruff_lib::core::linter::core::Linter;
@@ -33,7 +37,33 @@ fn linecol(s: &[u8], p: usize) -> (usize, usize) {
 }
 
 // ------------------------------------------------------------------ group linepos
-fn gen_text(rng: &mut Rng) -> String {
+/// Characters of 2, 3 and 4 bytes in UTF-8.
+const WIDE: &[char] = &['é', 'ß', 'ñ', '€', '日', '—', '😀'];
+
+/// Is there a multi-byte character followed (anywhere later) by a newline strictly before byte `p`?
+/// This is when an offset counted in characters and one counted in bytes give different lines/columns.
+fn wide_then_newline_before(s: &[u8], p: usize) -> bool {
+    let mut wide = false;
+    for b in &s[..p.min(s.len())] {
+        if *b >= 0x80 {
+            wide = true;
+        } else if *b == b'\n' && wide {
+            return true;
+        }
+    }
+    false
+}
+
+/// Largest char boundary of `s` that is `<= i`.
+fn floor_boundary(s: &str, mut i: usize) -> usize {
+    i = i.min(s.len());
+    while !s.is_char_boundary(i) {
+        i -= 1;
+    }
+    i
+}
+
+fn gen_text(rng: &mut Rng, wide: bool) -> String {
     let n = match rng.below(6) {
         0 => 0,
         1 => rng.range(1, 3),
@@ -45,9 +75,14 @@ fn gen_text(rng: &mut Rng) -> String {
     for _ in 0..n {
         if rng.below(10) < nl_weight {
             s.push('\n');
+        } else if wide && rng.chance(1, 3) {
+            s.push(*rng.pick(WIDE));
         } else {
             s.push(*rng.pick(&['a', 'b', ' ', 'S', ',', '\t', '\r', 'x']));
         }
+    }
+    if wide && s.is_ascii() {
+        s.insert(0, *rng.pick(WIDE));
     }
     match rng.below(8) {
         0 => s.insert(0, '\n'),
@@ -72,6 +107,14 @@ fn gen_offsets(rng: &mut Rng, s: &str) -> Vec<usize> {
             if i > 0 {
                 ps.push(i - 1);
             }
+        }
+    }
+    // around multi-byte characters: their first byte, a continuation byte, the byte after
+    for (i, ch) in s.char_indices() {
+        if ch.len_utf8() > 1 && rng.chance(1, 3) {
+            ps.push(i);
+            ps.push(i + 1);
+            ps.push(i + ch.len_utf8());
         }
     }
     for _ in 0..4 {
@@ -154,6 +197,12 @@ fn run_linepos(it: &LpItem, out: &mut Buf) {
         if text.get(*p) == Some(&b'\n') {
             out.count("linepos_calls_at_newline", 1);
         }
+        if wide_then_newline_before(text, *p) {
+            out.count("linepos_calls_after_multibyte_char_and_newline", 1);
+        }
+    }
+    if !it.src.is_ascii() {
+        out.count("linepos_texts_nonascii", 1);
     }
     out.direct("linepos", bad.is_none(), "c08-linepos", bad.as_deref().unwrap_or(""), input.clone());
     let args = g_tuple(&[
@@ -189,7 +238,8 @@ const STYLES: &[Style] = &[
 
 /// Text of the `k`-th placeholder (0-based) and the parameter name the templater will look up.
 fn placeholder(st: &Style, k: usize, rng: &mut Rng) -> (String, String) {
-    const NAMES: [&str; 4] = ["x", "my_param", "p", "some_longer_name"];
+    // the fifth name is only reachable from the non-ASCII classes (index 4)
+    const NAMES: [&str; 5] = ["x", "my_param", "p", "some_longer_name", "größe"];
     let nm = NAMES[k % NAMES.len()].to_string();
     let num = (k + 1).to_string();
     match st.name {
@@ -246,6 +296,29 @@ const VALUES: &[&str] = &[
     "1\n\n\n",
     "",
 ];
+
+/// Non-ASCII skeletons: multi-byte characters in comments (leading, inline, block), string
+/// literals, quoted identifiers and as bare (possibly unlexable) words, always *before* line
+/// breaks and before the layout / capitalisation / aliasing violations, parse errors and noqa errors.
+const NA_SKELETONS: &[&str] = &[
+    "-- résumé des ventes (€)\nSELECT @,\n   b  from t\n",
+    "SELECT 'żółć' as s, @\n  from  t  where a  = 'ñ'\n   and b = 1\n",
+    "/* 日本語のコメント\n   二行目 */\nselect a, @ ,c\nFROM  t\n",
+    "SELECT \"prénom\", @\nfrom \"tablé\"  where \"âge\"  > 1\n",
+    "SELECT a -- ünïcödé 😀\n  , @  from t\nwhere  a =  1\n",
+    "SELECT @ from t where n = 'München'  and  m = '東京'\norder by a  desc\n",
+    "SELECT café, @\n  from t\n",
+    "SELECT 'é' from t -- noqa: disable=\nselect  @\n+\n",
+    "SELECT @ as \"ß\",\n  col_a a  -- € noqa: LT01,\nfrom t\n",
+    "SELECT a,  'é—é' ,@\n\n\n   ,b   from t /* ñ */  where  c=1\n",
+    "— SELECT @\nselect  1 from t\n",
+];
+
+/// Header lines put before a file of the non-ASCII classes.
+const NA_HEADERS: &[&str] = &["-- Übersicht: größe in €\n", "/* 😀 */\n", "-- 日本語\n-- ещё одна строка\n", "/*\n  é\n*/\n\n"];
+
+/// Non-ASCII replacement values (literal, quoted identifier, multi-line, with a comment, bare).
+const NA_VALUES: &[&str] = &["'é'", "'日本語'", "'ä',\n  'ö'", "\"ü\"", "é", "'€' -- ñ\n", "😀", "'—'\n\n"];
 
 const RULESETS8: &[&str] = &["LT01,LT02", "LT01,LT02,CP01,AL02", "LT01,LT02,CP01,CP02,AL01,AL02,LT05,LT12", "core", "all", "CP01", "LT02", "LT01"];
 
@@ -370,6 +443,9 @@ fn run_viol(it: &VItem, out: &mut Buf) {
     if it.style.is_some() {
         out.count("files_placeholder_templated", 1);
     }
+    if !o.source.is_ascii() || !o.templated.is_ascii() {
+        out.count("files_nonascii", 1);
+    }
     let src = o.source.as_bytes();
     let shifted_somewhere = o.shifts.iter().any(|s| s.2 != 0);
     if shifted_somewhere {
@@ -401,6 +477,12 @@ fn run_viol(it: &VItem, out: &mut Buf) {
                 nontrivial = true;
             }
         }
+        if wide_then_newline_before(src, *s0) {
+            out.count("violations_after_multibyte_char_on_later_line", 1);
+            nontrivial = true;
+        } else if src[..(*s0).min(src.len())].iter().any(|b| *b >= 0x80) {
+            out.count("violations_after_multibyte_char_on_same_line", 1);
+        }
         let in_file = s0 <= s1 && *s1 <= src.len();
         let want = linecol(src, *s0);
         let ok = in_file && (*line, *col) == want;
@@ -428,6 +510,9 @@ fn run_viol(it: &VItem, out: &mut Buf) {
         }
         if s.0 != t.0 {
             out.count("markers_with_shifted_start", 1);
+        }
+        if wide_then_newline_before(src, s.0) {
+            out.count("markers_after_multibyte_char_on_later_line", 1);
         }
     }
     out.direct("markers", bad.is_none(), "c08-marker", bad.as_deref().unwrap_or(""), input.clone());
@@ -470,20 +555,28 @@ fn run_viol(it: &VItem, out: &mut Buf) {
     }
 }
 
-fn gen_viol(rng: &mut Rng, cls: &'static str, templated: bool) -> VItem {
+fn gen_viol(rng: &mut Rng, cls: &'static str, templated: bool, wide: bool) -> VItem {
     let dialect = if rng.chance(1, 3) { DIALECTS[rng.below(DIALECTS.len())] } else { "ansi" }.to_string();
     let rules = rng.pick(RULESETS8).to_string();
     let mut skel = String::new();
     let n = rng.range(1, 2);
     for _ in 0..n {
-        skel.push_str(*rng.pick(SKELETONS));
+        let pool = if wide && rng.chance(2, 3) { NA_SKELETONS } else { SKELETONS };
+        skel.push_str(*rng.pick(pool));
+    }
+    if wide && (skel.is_ascii() || rng.chance(1, 3)) {
+        skel.insert_str(0, *rng.pick(NA_HEADERS));
     }
     if !templated {
         // raw templater: fill the slots with ordinary expressions (possibly multi-line)
         let mut sql = String::new();
         for ch in skel.chars() {
             if ch == '@' {
-                sql.push_str(*rng.pick(&["a", "1", "col_a,\n  col_b", "x  ", "1 + 2"]));
+                if wide && rng.chance(1, 2) {
+                    sql.push_str(*rng.pick(NA_VALUES));
+                } else {
+                    sql.push_str(*rng.pick(&["a", "1", "col_a,\n  col_b", "x  ", "1 + 2"]));
+                }
             } else {
                 sql.push(ch);
             }
@@ -500,12 +593,13 @@ fn gen_viol(rng: &mut Rng, cls: &'static str, templated: bool) -> VItem {
             sql.push(ch);
             continue;
         }
-        let idx = if st.positional || st.numeric { k } else { rng.below(3) };
+        let idx = if st.positional || st.numeric { k } else { rng.below(if wide { 5 } else { 3 }) };
         let (text, name) = placeholder(st, idx, rng);
         sql.push_str(&text);
         k += 1;
         if !values.iter().any(|(n, _)| *n == name) && !rng.chance(1, 6) {
-            values.push((name, rng.pick(VALUES).to_string()));
+            let pool = if wide && rng.chance(1, 2) { NA_VALUES } else { VALUES };
+            values.push((name, rng.pick(pool).to_string()));
         }
     }
     VItem { cls, dialect, rules, style: Some(si), values, sql }
@@ -572,26 +666,42 @@ pub fn main(args: &Args) {
 
         let (n_lp, n_raw, n_tpl) = if args.thorough() { (30000, 4000, 16000) } else { (2500, 400, 1600) };
         for i in 0..n_lp {
-            let src0 = gen_text(&mut rng);
+            // two fifths of the texts contain multi-byte characters
+            let wide = i % 5 >= 3;
+            let src0 = gen_text(&mut rng, wide);
             let templ = i % 3 == 2;
             let (src, val) = if templ {
                 let mut s = src0.replace('x', "@");
                 if !s.contains('@') {
-                    s.insert(rng.below(s.len() + 1).min(s.len()), '@');
+                    let at = floor_boundary(&s, rng.below(s.len() + 1));
+                    s.insert(at, '@');
                 }
-                let v = rng.pick(&["", "\n", "vv\nv", "long long value", "\n\n"]).to_string();
+                let v = if wide && rng.chance(1, 2) {
+                    rng.pick(&["é", "€\n", "é\nß😀", "\n—\n"]).to_string()
+                } else {
+                    rng.pick(&["", "\n", "vv\nv", "long long value", "\n\n"]).to_string()
+                };
                 (s, Some(v))
             } else {
                 (src0, None)
             };
             let ps = gen_offsets(&mut rng, &src);
-            items.push(Item::Lp(LpItem { cls: if templ { "linepos-templated" } else { "linepos-raw" }, src, val, ps }));
+            let cls = match (templ, wide) {
+                (false, false) => "linepos-raw",
+                (true, false) => "linepos-templated",
+                (false, true) => "linepos-raw-nonascii",
+                (true, true) => "linepos-templated-nonascii",
+            };
+            items.push(Item::Lp(LpItem { cls, src, val, ps }));
         }
-        for _ in 0..n_raw {
-            items.push(Item::V(gen_viol(&mut rng, "raw", false)));
+        // a quarter of the files of either kind are of the non-ASCII class
+        for i in 0..n_raw {
+            let wide = i % 4 == 3;
+            items.push(Item::V(gen_viol(&mut rng, if wide { "raw-nonascii" } else { "raw" }, false, wide)));
         }
-        for _ in 0..n_tpl {
-            items.push(Item::V(gen_viol(&mut rng, "placeholder", true)));
+        for i in 0..n_tpl {
+            let wide = i % 4 == 3;
+            items.push(Item::V(gen_viol(&mut rng, if wide { "placeholder-nonascii" } else { "placeholder" }, true, wide)));
         }
     }
     par_run(&mut out, &items, || (), |_, it, buf| match it {
